@@ -13,6 +13,7 @@ User payloads `U` are the canonical value tokens (strings), passed through.
   birth simple <n|hexdev> <ent,..>          <hexname>:<a|n>:<dt>:<val>:<c|->
   birth dev <hexname> <scripted|simple> <now>
   birth undev <hexname>
+  birth undevh <hexname> <k>                unregister through the k-th handle ever returned for the name (by name)
   birth online|rebirth <now> <orders|_>     orders: <n|hexdev>=<hexname>,<hexname>..;..
   birth drebirth <hexdev> <now> <orders|_>
   birth offline
@@ -365,6 +366,12 @@ def stepBirth (w : BWorld) : List String → BWorld × String
     | some nm => ({ w with dm := removeDevice w.dm nm,
                            devs := w.devs.filter (fun e => e.1 != nm) }, "ok")
     | none => (w, "bad-op")
+  | ["undevh", nm, k] =>
+    -- `unregister_device(handle)` unregisters the device of the handle's NAME, whichever registration it is
+    match unhex nm, k.toNat? with
+    | some nm, some _ => ({ w with dm := removeDevice w.dm nm,
+                                   devs := w.devs.filter (fun e => e.1 != nm) }, "ok")
+    | _, _ => (w, "bad-op")
   | ["devmv", nn, on] =>
     -- while offline: unregister `on`, register `nn` with the same SimpleMetricManager
     match unhex nn, unhex on with
